@@ -357,3 +357,46 @@ def run(ctx):
 
     ctx.section(_sec_state)
 
+    def _sec_create():
+        # ------------------------------------------------------------- create
+        # "missing or empty target files are created with that interface": the target is emitted by the emitter handed
+        # to _conform_filename. The emitters name their node from keyword options (class_name / function_name +
+        # function_type) which `_default_options(search, type_wanted)` derives from the REQUESTED target; a call of
+        # the emitter without them names the new node after the truth (a class file created for `ConfigClass` holds
+        # `class function_name`) or, for the function emitter, whose name options are required, raises TypeError.
+        # Sibling agreement: every call of the emitter parameter passes `**_default_options(...)()`.
+        from ..core import RefGraph
+        from ..defuse import expand_aliases
+        from ..region import Region
+
+        cf_ = index.func("cdd.shared.conformance._conform_filename")
+        do_ = index.func("cdd.shared.conformance._default_options")
+        ctx.need("emit_func" in cf_.params, "_conform_filename no longer takes the emitter as `emit_func`")
+        n_calls = 0
+        for g_, n in Region(index, RefGraph(index), cf_).nodes():
+            if not (isinstance(n, ast.Call) and isinstance(n.func, ast.Name) and n.func.id == "emit_func"):
+                continue
+            n_calls += 1
+            ok_ = False
+            for k_ in n.keywords:
+                if k_.arg is None:
+                    full = expand_aliases(g_, k_.value)
+                    ok_ = ok_ or any(isinstance(x, (ast.Name, ast.Attribute)) and index.resolve(g_.mod, x, g_) == do_.qual for x in ast.walk(full))
+            ctx.ob(
+                "C12.create",
+                g_,
+                "the emitter is called with the name options of the requested target",
+                ok_,
+                ""
+                if ok_
+                else "`{}` emits the target without `**_default_options(...)()`: the node is named after the truth, not after "
+                "the requested target (a missing class file gets `class <truth name>`), and the function emitter, whose "
+                "function_name / function_type are required, raises TypeError — a missing file is not created with the "
+                "truth's interface under the listed name".format(short(n, 60)),
+                line=n.lineno,
+            )
+        ctx.count("emitter_calls_in_conform_filename", n_calls)
+        ctx.need(n_calls >= 1, "no call of the emitter in _conform_filename")
+
+    ctx.section(_sec_create)
+
